@@ -162,6 +162,9 @@ pub struct SweepPlan {
     pub heavy: Option<(usize, usize, usize)>,
     pub rights: bool,
     pub see_family: Option<usize>,
+    /// F-CORNER: (white king, black king, further men)
+    pub corner: Vec<(u8, u8, Vec<Man>)>,
+    pub skip_reach: bool,
 }
 
 pub fn men1() -> Vec<Vec<Man>> {
@@ -211,7 +214,7 @@ pub fn run_plan(ctx: &Ctx, plan: &SweepPlan) -> (u64, u64) {
     };
     crosscheck(ctx, true);
     // F-REACH
-    let seeds = families::seeds();
+    let seeds = if plan.skip_reach { vec![] } else { families::seeds() };
     let (mut rs, mut rt) = (0u64, 0u64);
     for s in &seeds {
         let p = Pos::from_fen(s.fen).unwrap();
@@ -224,8 +227,10 @@ pub fn run_plan(ctx: &Ctx, plan: &SweepPlan) -> (u64, u64) {
         rs += a;
         rt += b;
     }
-    ctx.run.family("F-REACH", &format!("{} seeds, depth {} (large middlegame seeds: {})", seeds.len(), plan.reach_depth_small, plan.reach_depth_big), rs, rt, true, "BFS, identity = placement+side+rights+ep");
-    add((rs, rt));
+    if !plan.skip_reach {
+        ctx.run.family("F-REACH", &format!("{} seeds, depth {} (large middlegame seeds: {})", seeds.len(), plan.reach_depth_small, plan.reach_depth_big), rs, rt, true, "BFS, identity = placement+side+rights+ep");
+        add((rs, rt));
+    }
     if plan.rights {
         add(run_family(ctx, "F-RIGHTS", "4 home placements x 16 right subsets x 2 sides", 1, &total, &|_, cb| enumerate_rights(cb)));
     }
@@ -280,6 +285,15 @@ pub fn run_plan(ctx: &Ctx, plan: &SweepPlan) -> (u64, u64) {
     if let Some((q, r, bn)) = plan.heavy {
         add(run_family(ctx, "F-HEAVY", &format!("up to {q} queens, {r} rooks, {bn} bishops, {bn} knights a side, 3 filling orders, both sides to move"), 1, &total, &|_, cb| {
             families::enumerate_heavy(q, r, bn, cb)
+        }));
+    }
+    if !plan.corner.is_empty() {
+        let items = plan.corner.clone();
+        let name = |m: &Man| format!("{}{}", if m.0 == Color::W { "w" } else { "b" }, format!("{:?}", m.1));
+        let desc: Vec<String> = items.iter().map(|(wk, bk, men)| format!("K{}/k{}+{}", crate::refchess::sq_name(*wk), crate::refchess::sq_name(*bk), men.iter().map(name).collect::<Vec<_>>().join(""))).collect();
+        add(run_family(ctx, "F-CORNER", &format!("both kings fixed, {} further men on all squares, both sides to move, plus colour-mirrored twins: {}", items[0].2.len(), desc.join(" ")), items.len() * 64, &total, &|i, cb| {
+            let (wk, bk, men) = &items[i / 64];
+            families::enumerate_corner(*wk, *bk, men, (i % 64) as u8, cb)
         }));
     }
     if let Some(n) = plan.see_family {
